@@ -2478,7 +2478,14 @@ impl BytecodeVM {
                     ));
                 };
 
-                let prop_key = interp.property_key_from_value(key);
+                // ToPropertyKey: an object key is converted to a primitive first
+                let prop_key = if matches!(key, JsValue::Object(_)) {
+                    let key = key.clone();
+                    let text = interp.coerce_to_string(&key)?;
+                    interp.property_key_from_value(&JsValue::String(text))
+                } else {
+                    interp.property_key_from_value(key)
+                };
 
                 // Check if this is a proxy - delegate to proxy_has if so
                 let has_prop = if matches!(obj_ref.borrow().exotic, ExoticObject::Proxy(_)) {
@@ -5417,19 +5424,14 @@ impl BytecodeVM {
             }
 
             // NOTE: review
-            Op::CreateRestArray { dst, start_index } => {
-                // Create an array from remaining iterator elements
-                // This is used for rest patterns like [...rest] = arr
-                // The iterator state is assumed to be in the register before this one
-                // We need to collect all remaining elements from the current iterator
-
-                // For now, this opcode is context-dependent - it needs the iterator
-                // that was being used. We'll check if there's an internal iterator in scope.
-                // This is a simplified implementation that works with the pattern compiler.
-
-                // Look for the iterator in a previous register (typically dst - 3 based on pattern)
-                // This is a heuristic - the pattern compiler allocates registers in a specific order
-                let iter_reg = dst.saturating_sub(3);
+            Op::CreateRestArray {
+                dst,
+                iterator,
+                start_index,
+            } => {
+                // Create an array from the elements the iterator of the destructuring
+                // has not produced yet (rest patterns like [a, ...rest] = value)
+                let iter_reg = iterator;
                 let iter_val = self.get_reg(iter_reg);
 
                 let mut elements = Vec::new();
